@@ -59,6 +59,14 @@ fn run_server_script(seed: u64, n: u64, ev: &mut Evidence) {
         decode,
         commands,
     };
+    // a third of the scripts run against a peer that reads slowly (replies leave in pieces of 16 / 5 / 64
+    // bytes with 300 us between them): the level changes at +500 us then arrive while a reply is
+    // partly written
+    let slow: Option<(usize, Duration)> = if n % 3 == 2 { Some((*rng.pick(&[16usize, 5, 64]), Duration::from_micros(300))) } else { None };
+    if slow.is_some() {
+        ev.count("server_scripts_with_slow_reader", 1);
+    }
+    let run_server_case = |c: &ServerCase| crate::server_run::run_server_case_io(c, None, slow);
     let reference = server_record(&run_server_case(&base(DECODE_NOTHING, vec![])));
     ev.eval();
     ev.count("server_scripts", 1);
